@@ -199,6 +199,22 @@ def unit(u, res):
             claim = claim_for(meta, op, o, refcases)
             verdict, model = pr.prove(name, o.pc, claim, diversify=diversify_plan([A, B]))
             got = None
+        # engine validation on a seed-chosen sample of paths: a model of the path condition is a concrete operand pair; the native crate
+        # must produce exactly the outcome this path predicts (skipped where the value depends on an uninterpreted libm symbol)
+        if o.kind == 'return' and pr.rng.random() < TRACE_RATE[0] and not (op in ('Exp',) or (op == 'Mod' and 'F' in (A[0], (B or ('',))[0]))):
+            feas_, m_ = pr.feasible(o.pc)
+            if feas_:
+                a_c = spec_concrete(A, m_)
+                b_c = spec_concrete(B, m_) if B is not None else None
+                pred = render_result(meta, o.value, m_)
+                vars_ = [('a', tuple_fix(a_c))] + ([('b', tuple_fix(b_c))] if b_c is not None else [])
+                expr = ('a %s b' % SYMBOL[op]) if b_c is not None else ('%sa' % SYMBOL[op])
+                nat = replay.run_cases(replay.case_text('c', 'eval_with_context', expr, vars=vars_), 'dev' if ofc else 'release')['c'].get('result')
+                okp = nat is not None and ((pred[0] == 'Ok' and nat[0] == 'Ok' and norm_val(pred[1]) == norm_val(nat[1])) or (pred[0] == 'Err' and nat[0] == 'Err' and pred[1] == nat[1]))
+                if okp:
+                    res.traces_validated += 1
+                else:
+                    res.inconclusive.append('engine validation: path of %s predicts %s for %s, %s but the native crate gives %s' % (name, pred, a_c, b_c, nat))
         if len(res.samples) < 2:
             res.samples.append(dict(unit=name, overflow_checks=ofc, path_condition=[str(z3.simplify(c))[:160] for c in o.pc[len(cons):]][:4],
                                     outcome=(render_result(meta, o.value)[0] if o.kind == 'return' else 'panic'), verdict=verdict))
@@ -209,6 +225,17 @@ def unit(u, res):
                 res.sat.append(dict(key='op=%s types=%s,%s' % (op, spec_type(A), spec_type(B) if B else '-'), op=op, a=a_c, b=b_c,
                                     overflow_checks=ofc, got=got or str(render_result(meta, o.value, mdl)),
                                     witness='%s %s %s' % (a_c, SYMBOL[op], b_c)))
+
+
+TRACE_RATE = [0.02]
+
+
+def norm_val(v):
+    if isinstance(v, (list, tuple)):
+        if len(v) == 2 and v[0] == 'Tuple':
+            return ('Tuple', tuple(norm_val(x) for x in v[1]))
+        return tuple(norm_val(x) for x in v)
+    return v
 
 
 def replay_ce(ce):
@@ -289,6 +316,7 @@ def main():
                    ('T[I,I,I,I]', 'T[I,I,I]')]
     timeout_ms = 60000 if tier == 'quick' else 600000
     cvc5_rate = 0.02 if tier == 'quick' else 0.25
+    TRACE_RATE[0] = 0.02 if tier == 'quick' else 0.2
     units = []
     for ofc in (True, False):
         frontend.load(overflow_checks=ofc)
